@@ -255,7 +255,7 @@ def _run(jobs, nproc=None):
         return [work(j) for j in jobs]
     jobs = sorted(jobs, key=lambda j: 0 if j[3] else 1)  # long (split) jobs first
     ctx = mp.get_context("fork")
-    with ctx.Pool(nproc) as pool:
+    with ctx.Pool(nproc, maxtasksperchild=1) as pool:  # a fresh z3 context per job: verdicts do not depend on which jobs shared a worker
         return pool.map(work, jobs, chunksize=1)
 
 
